@@ -33,7 +33,7 @@ from lsst.daf.relation.iteration import RowSequence
 from . import model as M
 from .exprs import expr_cols, pred_cols
 from .interp import InterpError, interp
-from .world import SimIOError, SimRows, children, needs_processing, walk, walk_live
+from .world import SimIOError, SimMatRows, SimRows, children, needs_processing, walk, walk_live
 
 
 def live_leaf_ids(rel):
@@ -65,7 +65,11 @@ def leaf_occurrences(rel, eager=False, lazy=None, eag=None):
         leaf_occurrences(rel.lhs, eager, lazy, eag)
         leaf_occurrences(rel.rhs, eager, lazy, eag)
     elif isinstance(rel, Materialization):
-        leaf_occurrences(rel.target, True, lazy, eag)
+        t = rel.target
+        while isinstance(t, MarkerRelation) and t.payload is None and t.max_rows != 0 and not t.is_join_identity:
+            t = t.target
+        # materialized() of a payload that already is a sized in-memory iterable is that very object: nothing is read
+        leaf_occurrences(rel.target, eager if isinstance(t.payload, SimMatRows) else True, lazy, eag)
     elif isinstance(rel, MarkerRelation):
         leaf_occurrences(rel.target, eager, lazy, eag)
     return lazy, eag
@@ -779,12 +783,36 @@ class ExtraOps:
             self.violate("rebuild_hash_differs", {"tree": str(t.rel)[:200]}, entry=t)
         self.logev(self.w.op_index, "rebuild", "ok")
 
+    def op_twin(self, op):
+        """Append an *equal but distinct* copy of a relation: the same calls issued again from the leaves up (callers
+        that rebuild a query instead of keeping it).  Everything said about the original must hold for the copy, and
+        later calls on either must not be confused with calls on the other."""
+        from .execu import Entry
+
+        t = self.ref(op["t"])
+        if t is None:
+            return
+        if t.taint:
+            return self.alias(op, t, "tainted")
+        try:
+            again = self.rebuild(t, {})
+        except Exception:  # noqa  (the original construction succeeded; failures here are covered elsewhere)
+            again = None
+        if again is None or again is t.rel:
+            return self.alias(op, t, "no-twin")
+        ent = Entry(again, t.mv, op, [t])
+        self.pool.append(ent)
+        self.stats["twins"] += 1
+        self.logev(self.w.op_index, "twin", str(again))
+        self.check_new(ent, op, [t])
+
     def op_twice(self, op):
         """Compile / execute the same relation twice: identical SQL text, identical rows."""
         t = self.ref(op["t"])
         if t is None or needs_processing(t.rel) or t.taint:
             return
         w = self.w
+        counters = {k: e.relation_name_counter for k, e in sorted(w.engines.items())}
         try:
             if isinstance(t.rel.engine, sql.Engine):
                 s1 = w.sql_text(w.sql.to_executable(t.rel))
@@ -800,6 +828,10 @@ class ExtraOps:
             self.on_exec_exception(t, e)
             return
         self.stats["twice"] += 1
+        after = {k: e.relation_name_counter for k, e in sorted(w.engines.items())}
+        if after != counters:
+            # compiling / executing is a read-only use of a relation: it must not consume engine state
+            self.violate("execute_not_repeatable", {"engine_name_counters_before": counters, "after": after}, entry=t)
         if r1 != r2:
             self.violate("execute_not_repeatable", {"first": r1[:6], "second": r2[:6]}, entry=t)
 
